@@ -8,13 +8,22 @@ namespace MsVerif.C09
 open MsVerif ExtData
 
 /-- what the caller can hand in stays within the sizes the library assumes: Schnorr signatures
-of 64/65 bytes, and keys revealed for raw `pk_h` hashes no longer than the library assumes
-(compressed in Bare/Legacy) -/
+of 64/65 bytes.  (Nothing is asked about keys revealed for raw `pk_h` hashes: see
+`pkLen_le_rawKeySig`.) -/
 structure AssetsOk (ke : KeyEnv) (ctx : Ctx) (a : Assets) : Prop where
   schnorr : ∀ k sz, a.schnorrSig k = some sz → sz ≤ 65
-  rawSchnorr : ∀ h pk sz, a.rawPkhSchnorr h = some (pk, sz) → sz ≤ 65 ∧ pkLen ke ctx pk ≤ (keySig ctx false).1
-  rawPk : ∀ h pk, a.rawPkhPk h = some pk → pkLen ke ctx pk ≤ (keySig ctx false).1
-  rawEcdsa : ∀ h pk, a.rawPkhEcdsa h = some pk → pkLen ke ctx pk ≤ (keySig ctx false).1
+  rawSchnorr : ∀ h pk sz, a.rawPkhSchnorr h = some (pk, sz) → sz ≤ 65
+
+/-- the key-size figure of a raw key hash: the largest key the context allows (the hash does not
+    tell which encoding the revealed key has) -/
+def rawUnc (ctx : Ctx) : Bool := ctx == .bare || ctx == .legacy
+
+/-- ANY key revealed for a raw key hash fits that figure - no hypothesis on the caller's assets
+    is needed (before the library fix the figure was the compressed size, and the hypothesis
+    "the revealed key is compressed" was needed in Bare / Legacy) -/
+theorem pkLen_le_rawKeySig (ke : KeyEnv) (ctx : Ctx) (pk : Key) :
+    pkLen ke ctx pk ≤ (keySig ctx (rawUnc ctx)).1 := by
+  cases ctx <;> simp [pkLen, keySig, rawUnc, Ctx.sigType] <;> split <;> omega
 
 /-- one signature element -/
 def IsSig (ctx : Ctx) (s : List Ph) : Prop :=
